@@ -286,7 +286,9 @@ class PSBT:
                     signature = Signature.parse(sig[:-1])
                     # the last byte of a partial signature is the hash type it signs for
                     hash_type = sig[-1]
-                    if psbt_in.prev_out:
+                    # a segwit input is signed with the BIP143 digest also when it is
+                    # documented by its previous transaction only
+                    if psbt_in.prev_out or psbt_in.use_segwit_signature():
                         # segwit
                         z = self.tx_obj.sig_hash_bip143(
                             i,
